@@ -73,6 +73,14 @@ func c18Run(x *core.Ctx) {
 			if len(doc.Defs) == 0 {
 				continue
 			}
+			if j == 6 || j == 2 {
+				// a literal that one rule prints and another reads (two identical selections of a field carrying it)
+				for _, f := range dgen.Faults {
+					if f.Name == "unsorted-object-for-leaf-twice" {
+						f.Do(dgen.NewFCtx(r, sc.mg, doc))
+					}
+				}
+			}
 			if j > 0 {
 				n := 1 + r.Intn(4)
 				for k := 0; k < n; k++ {
